@@ -526,9 +526,13 @@ class Interp:
                     return ClassRef(m2.classes[nm])
                 if nm in m2.functions:
                     return BoundMethod(None, m2.functions[nm])
+                if nm in getattr(m2, "dropped_functions", {}):
+                    return BoundMethod(None, m2.dropped_functions[nm])
         if e.id in ("struct", "time", "asyncio", "logging", "re", "math", "threading", "socket"):
             return ModuleRef(e.id)
         if mod is not None and e.id in mod.imports:
+            if mod.imports[e.id][0] >= 1 and e.id.startswith("_"):
+                raise Undecided(f"`{e.id}` is imported from inside the package but its definition was not found")
             return Opaque(e.id)  # imported from outside the package (datetime, ...)
         raise Undecided(f"unbound name {e.id}")
 
